@@ -3,8 +3,11 @@ package main
 import (
 	"bytes"
 	"fmt"
+	"io"
 	"io/ioutil"
 	"math/rand"
+	"sync"
+	"time"
 
 	"github.com/brutella/hc/crypto"
 
@@ -198,4 +201,120 @@ func truncatedThenComplete(r *vf.Run, rnd *rand.Rand) {
 		}
 	}
 	r.Floor("truncated_then_complete_cases", int(r.Counter("truncated_then_complete_cases"))+100000*bad, 100)
+}
+
+// pendingDecrypt: one direction of a session waits for data (Decrypt on a reader that has nothing yet: a pipe, a socket)
+// while the other direction is used.  Sealing must go on: the two directions of a session have nothing to wait for in
+// each other.  "Does not return" is decided by bounded progress, not by a clock: while the Encrypt call is outstanding,
+// 3000 complete seal / open round trips are made on an independent session (and then a grace period of a second is
+// given); afterwards the waiting Decrypt is handed its frame and must return the plaintext.  The mirror image: an
+// Encrypt whose source reader has not delivered yet, and a Decrypt meanwhile.
+func pendingDecrypt(r *vf.Run, rnd *rand.Rand) {
+	for round := 0; round < r.Pick(20, 200); round++ {
+		r.Eval()
+		var secret, other [32]byte
+		rnd.Read(secret[:])
+		rnd.Read(other[:])
+		acc, err1 := crypto.NewSecureSessionFromSharedKey(secret)
+		ref, err2 := crypto.NewSecureSessionFromSharedKey(other)
+		refPeer, err3 := crypto.NewSecureClientSessionFromSharedKey(other)
+		if err1 != nil || err2 != nil || err3 != nil {
+			r.Inconclusive("session constructor")
+			return
+		}
+		c2a, _ := refctl.SessionKeys(secret[:])
+		p := make([]byte, 1+rnd.Intn(2000))
+		rnd.Read(p)
+		wire := (&refctl.Framer{Key: c2a}).SealFrames(p, nil)
+		mirror := round%2 == 1
+		pr, pw := io.Pipe()
+		entered := make(chan struct{})
+		blocked := &signalReader{r: pr, first: entered}
+		type res struct {
+			b   []byte
+			err error
+		}
+		waiting := make(chan res, 1)
+		go func() { // the call that waits for data
+			var rd io.Reader
+			var err error
+			if mirror {
+				rd, err = acc.Encrypt(blocked)
+			} else {
+				rd, err = acc.Decrypt(blocked)
+			}
+			var b []byte
+			if rd != nil {
+				b, _ = ioutil.ReadAll(rd)
+			}
+			waiting <- res{b, err}
+		}()
+		<-entered
+		other1 := make(chan res, 1)
+		go func() { // the other direction, meanwhile
+			var rd io.Reader
+			var err error
+			if mirror {
+				rd, err = acc.Decrypt(bytes.NewReader(wire))
+			} else {
+				rd, err = acc.Encrypt(bytes.NewReader(p))
+			}
+			var b []byte
+			if rd != nil {
+				b, _ = ioutil.ReadAll(rd)
+			}
+			other1 <- res{b, err}
+		}()
+		for k := 0; k < 3000; k++ { // bounded progress elsewhere
+			e, _ := ref.Encrypt(bytes.NewReader(p[:1+k%len(p)]))
+			b, _ := ioutil.ReadAll(e)
+			if d, err := refPeer.Decrypt(bytes.NewReader(b)); err == nil {
+				ioutil.ReadAll(d)
+			}
+		}
+		what := map[bool]string{false: "Encrypt while a Decrypt of the same session waits for data", true: "Decrypt while an Encrypt of the same session waits for its source"}[mirror]
+		var o res
+		select {
+		case o = <-other1:
+		case <-time.After(time.Second):
+			select {
+			case o = <-other1:
+			default:
+				r.Violation("pending:other-direction-blocked", what+": the call has not returned while 3000 seal / open round trips were made on another session (and a second of grace)", map[string]interface{}{"round": round, "mirror": mirror, "payload": len(p)})
+				pw.Close()
+				return
+			}
+		}
+		if o.err != nil || (mirror && !bytes.Equal(o.b, p)) {
+			r.Violation("pending:other-direction-wrong", fmt.Sprintf("%s: error %v, %d bytes", what, o.err, len(o.b)), nil)
+			pw.Close()
+			return
+		}
+		// now the waiting call gets its data
+		if mirror {
+			pw.Write(p)
+		} else {
+			pw.Write(wire)
+		}
+		pw.Close()
+		w := <-waiting
+		if w.err != nil || (!mirror && !bytes.Equal(w.b, p)) {
+			r.Violation("pending:waiting-call-wrong", fmt.Sprintf("the call that waited for its data returns error %v, %d bytes", w.err, len(w.b)), nil)
+			return
+		}
+		r.Count("pending_direction_rounds", 1)
+		r.Nontrivial(fmt.Sprintf("pending/%v/%d", mirror, len(p)))
+	}
+	r.Floor("pending_direction_rounds", int(r.Counter("pending_direction_rounds"))+1000*r.ViolationCount(), r.Pick(20, 200))
+}
+
+type signalReader struct {
+	r     io.Reader
+	first chan struct{}
+	once  sync.Once
+}
+
+func (s *signalReader) Read(p []byte) (int, error) {
+	s.once.Do(func() { close(s.first) })
+	return s.r.Read(p)
 }
